@@ -123,7 +123,7 @@ def defaults(run, p):
             run.ob('C15-DEFAULTS', '%s::%s::%s' % (m.rel, m.short, norm(x)[:40]), ok,
                    '%s stores %s on %s' % (m.short, norm(x)[:50], 'the class it was called on' if tgt == clsname else
                                           ('the class %s, whichever class it was called on' % tgt if named_class else tgt)), fn=m, node=x)
-    run.floor('C15-DEFAULTS', n, 3)
+    run.floor('C15-DEFAULTS', n, 1)       # (one setattr in a loop does for the three settings)
 
 
 def cmdfiles(run, p, fc):
